@@ -328,15 +328,44 @@ type c01Loop struct {
 	assoc    []*ssa.MapUpdate     // nameMap[k] = append(nameMap[k], pod)
 	cleanApp map[*ssa.Call]bool   // appends that flow into the clean-up result
 	ignore   func(ssa.Value) bool // is v `ignoreMap[k],ok`#1 / membership in the ignore parameter
+	pre      *c01Pre              // filter phase, when the pods are first collected and then classified
 }
 
-// c01PodLoop finds the range loop over <PodList parameter>.Items in the mapping function.
+// c01Pre is a filter phase in front of the classification loop: a range over the listed pods (in the
+// mapping function or a helper) that passes some pods on, as elements {pod, node name} of the list
+// the classification loop then ranges over.
+type c01Pre struct {
+	fn        *ssa.Function
+	l         *sliceLoopC
+	k         *keyer
+	ff        *FuncFacts
+	pass      []*ssa.Call // the appends that pass a pod on
+	podField  string      // field of the passed element holding the pod
+	nameField string      // field holding GetNodeNameFromPod(pod)
+}
+
+func (p *c01Pre) isPod(v ssa.Value) bool { return p.l.isElem(p.k, v) }
+func (p *c01Pre) podPath(v ssa.Value, want ...string) bool {
+	pp, ok := p.l.elemPath(p.k, v)
+	return ok && pathIsMetaC(pp, want...)
+}
+
+// c01PodLoop finds the loop that classifies the listed pods: the range loop over <PodList
+// parameter>.Items of the mapping function, or — when the pods are collected first — the loop that
+// attaches pods to the per-node map together with the filter phase feeding it.
 func c01PodLoop(r *Run, a *c01Anchors) *c01Loop {
 	fn := a.mapping
+	var podList *ssa.Parameter
+	for _, p := range fn.Params {
+		if isPtrToNamed(p.Type(), pkgCoreV1, "PodList") {
+			podList = p
+		}
+	}
 	var found *sliceLoopC
+	var pre *c01Pre
 	for _, l := range sliceLoopsC(fn) {
 		root, p := accessPath(l.Slice)
-		if pr, ok := root.(*ssa.Parameter); ok && isPtrToNamed(pr.Type(), pkgCoreV1, "PodList") && pathIsC(p, "Items") {
+		if pr, ok := root.(*ssa.Parameter); ok && pr == podList && pathIsC(p, "Items") {
 			if found != nil {
 				r.Fatal("%s ranges twice over the listed pods", shortFunc(fn))
 				return nil
@@ -344,11 +373,31 @@ func c01PodLoop(r *Run, a *c01Anchors) *c01Loop {
 			found = l
 		}
 	}
+	if found == nil && podList != nil {
+		// collect-then-classify: the loop holding the association site ranges over a list built, by a
+		// range over the listed pods, of {pod, node name} elements
+		for _, l := range sliceLoopsC(fn) {
+			has := false
+			for b := range l.In {
+				for _, in := range b.Instrs {
+					if mu, ok := in.(*ssa.MapUpdate); ok && a.isNameMap(mu.Map) && builtinCallC(mu.Value, "append") != nil {
+						has = true
+					}
+				}
+			}
+			if !has {
+				continue
+			}
+			if p := c01FindPre(r, a, podList, l); p != nil {
+				found, pre = l, p
+			}
+		}
+	}
 	if found == nil {
-		r.Fatal("%s has no range loop over the listed pods", shortFunc(fn))
+		r.Fatal("%s has no range loop over the listed pods (directly, or over a list collected from them)", shortFunc(fn))
 		return nil
 	}
-	cl := &c01Loop{l: found, ff: computeFacts(fn), cleanApp: map[*ssa.Call]bool{}}
+	cl := &c01Loop{l: found, ff: computeFacts(fn), cleanApp: map[*ssa.Call]bool{}, pre: pre}
 	cl.k = cl.ff.K
 	for _, b := range fn.Blocks {
 		if ret := returnOf(b); ret != nil {
@@ -369,23 +418,118 @@ func c01PodLoop(r *Run, a *c01Anchors) *c01Loop {
 	return cl
 }
 
-// isPod: v is the loop's current pod (address, copy or value).
-func (cl *c01Loop) isPod(v ssa.Value) bool { return cl.l.isElem(cl.k, v) }
+// c01FindPre recognises the filter phase feeding loop l: l's slice is built only by appends, all in
+// one range loop over <podList>.Items (podList handed to a helper or not), of struct elements one
+// field of which is the current pod and another GetNodeNameFromPod(pod).
+func c01FindPre(r *Run, a *c01Anchors, podList *ssa.Parameter, l *sliceLoopC) *c01Pre {
+	apps, leaves := sliceChainIPC(l.Slice)
+	if len(leaves) > 0 || len(apps) == 0 {
+		return nil
+	}
+	h := apps[0].Parent()
+	var l1 *sliceLoopC
+	for _, c := range sliceLoopsC(h) {
+		if ipIsC(a.al, c.Slice, podList, "Items") && c.In[apps[0].Block()] {
+			l1 = c
+		}
+	}
+	if l1 == nil {
+		return nil
+	}
+	p := &c01Pre{fn: h, l: l1, ff: computeFacts(h)}
+	p.k = p.ff.K
+	for _, ap := range apps {
+		if ap.Parent() != h || !l1.In[ap.Block()] {
+			return nil
+		}
+		_, elems, spread := appendPartsC(ap)
+		if spread != nil || len(elems) != 1 {
+			return nil
+		}
+		ld, ok := elems[0].(*ssa.UnOp)
+		if !ok {
+			return nil
+		}
+		st, ok := ld.X.(*ssa.Alloc)
+		if !ok || !localStructC(st) {
+			return nil
+		}
+		podF, nameF := "", ""
+		for _, rf := range refs(st) {
+			fa, isFA := rf.(*ssa.FieldAddr)
+			if !isFA {
+				continue
+			}
+			for _, r2 := range refs(fa) {
+				sto, isSt := r2.(*ssa.Store)
+				if !isSt || sto.Addr != ssa.Value(fa) {
+					continue
+				}
+				if l1.isElem(p.k, sto.Val) {
+					podF = fieldName(fa)
+				}
+				if c, isRes := isResultOf(sto.Val, pkgPodUtils+".GetNodeNameFromPod", 0); isRes && l1.isElem(p.k, c.Call.Args[0]) {
+					nameF = fieldName(fa)
+				}
+			}
+		}
+		if podF == "" || nameF == "" || (p.podField != "" && (p.podField != podF || p.nameField != nameF)) {
+			return nil
+		}
+		p.podField, p.nameField = podF, nameF
+		p.pass = append(p.pass, ap)
+	}
+	return p
+}
+
+// isPod: v is the loop's current pod (address, copy or value; with a filter phase: the pod field of
+// the current element).
+func (cl *c01Loop) isPod(v ssa.Value) bool {
+	if cl.pre != nil {
+		p, ok := cl.l.elemPath(cl.k, v)
+		return ok && pathIsC(p, cl.pre.podField)
+	}
+	return cl.l.isElem(cl.k, v)
+}
 
 // podField: v is a field path of the current pod.
 func (cl *c01Loop) podField(v ssa.Value, want ...string) bool {
 	p, ok := cl.l.elemPath(cl.k, v)
-	return ok && pathIsMetaC(p, want...)
+	if !ok {
+		return false
+	}
+	if cl.pre != nil {
+		return len(p) > 0 && p[0] == cl.pre.podField && pathIsMetaC(p[1:], want...)
+	}
+	return pathIsMetaC(p, want...)
 }
 
-// nodeNameOfPod: v is result #0 of GetNodeNameFromPod(current pod).
+// nodeNameOfPod: v is result #0 of GetNodeNameFromPod(current pod) (with a filter phase: the name
+// field of the current element, which the filter phase fills with exactly that).
 func (cl *c01Loop) nodeNameOfPod(v ssa.Value) bool {
+	if cl.pre != nil {
+		p, ok := cl.l.elemPath(cl.k, v)
+		return ok && pathIsC(p, cl.pre.nameField)
+	}
 	c, ok := isResultOf(v, pkgPodUtils+".GetNodeNameFromPod", 0)
 	return ok && cl.isPod(c.Call.Args[0])
 }
 
+// phaseIs: the facts (or, with a filter phase, the facts under which every pod is passed on) say
+// whether the current pod's phase is `phase`.
 func (cl *c01Loop) phaseIs(fs factSet, phase string, pol bool) bool {
-	return eqFactC(fs, pol, func(v ssa.Value) bool { return cl.podField(v, "Status", "Phase") }, isConstStringVal(phase))
+	if eqFactC(fs, pol, func(v ssa.Value) bool { return cl.podField(v, "Status", "Phase") }, isConstStringVal(phase)) {
+		return true
+	}
+	if cl.pre == nil || len(cl.pre.pass) == 0 {
+		return false
+	}
+	for _, ap := range cl.pre.pass {
+		if !eqFactC(cl.pre.ff.At(ap.Block()), pol, func(v ssa.Value) bool { return cl.pre.podPath(v, "Status", "Phase") }, isConstStringVal(phase)) {
+			return false
+		}
+	}
+	return true
 }
 
 // appendsPodTo: the path passes an append (of the current pod) that belongs to set.
@@ -670,6 +814,39 @@ func c01Association(r *Run, a *c01Anchors) {
 		default:
 			add("C01.R2", "skip without an allowed reason ["+c01Distinguish(fs)+"]",
 				"a pod is left out of its node's list only if it has no node name, is in phase Unknown, is Failed and cleaned up, or its node is not in the map (a terminating pod must keep the entry non-nil)", false, "path facts: "+descFactsC(fs))
+		}
+	}
+	// the filter phase, if any: a pod is not passed on only for an allowed reason
+	if cl.pre != nil {
+		pre := cl.pre
+		pp, okP := backEdgePathsC(pre.fn, pre.k, pre.l.Header, pre.l.Body, pre.l.In, 5000)
+		r.paths += len(pp)
+		if !okP {
+			add("C01.R2", "filter phase paths", "path enumeration", false, "path cap exceeded")
+		}
+		isErrPre := func(v ssa.Value) bool {
+			c, ok := isResultOf(v, pkgPodUtils+".GetNodeNameFromPod", 1)
+			return ok && pre.isPod(c.Call.Args[0])
+		}
+		for _, p := range pp {
+			passed := false
+			for _, ap := range pre.pass {
+				if p.Contains(ap.Block()) {
+					passed = true
+				}
+			}
+			switch {
+			case passed:
+				add("C01.R2", "filter phase passes the pod on", "—", true, "")
+			case nilFactC(p.Facts, false, isErrPre):
+				add("C01.R2", "skip: pod has no node name", "allowed skip reason", true, "")
+			case eqFactC(p.Facts, true, func(v ssa.Value) bool { return pre.podPath(v, "Status", "Phase") }, isConstStringVal(unknown)):
+				add("C01.R2", "skip: phase Unknown", "allowed skip reason", true, "")
+				add("C01.R3", "Unknown-phase iteration", "an Unknown-phase pod is not put on the clean-up list", true, "dropped by the filter phase")
+			default:
+				add("C01.R2", "skip without an allowed reason ["+c01Distinguish(p.Facts)+"]",
+					"a pod is left out of its node's list only if it has no node name, is in phase Unknown, is Failed and cleaned up, or its node is not in the map (a terminating pod must keep the entry non-nil)", false, "filter phase, path facts: "+descFactsC(p.Facts))
+			}
 		}
 	}
 	var keys []string
@@ -1444,13 +1621,62 @@ func c01Fitness(r *Run) {
 		}
 		return false
 	}
+	fitReach := r.Prog.reachableFuncs(fit)
+	al := newAliasC(r.Prog, fitReach)
+	// the taint check is the conjunct from which a scan of node.Spec.Taints is reached
 	isTaintFn := func(fn *ssa.Function) bool {
-		return callsTo(fn, func(c *ssa.CallCommon) bool { return calleeName(c) == pkgSched+".TolerationsTolerateTaintsWithFilter" })
+		g, l := c01TaintScan(r, al, fn)
+		return g != nil && l != nil
 	}
 	isSelectorFn := func(fn *ssa.Function) bool {
 		return callsTo(fn, func(c *ssa.CallCommon) bool {
 			return c.IsInvoke() && c.Method.Name() == "Matches" && c.Method.Pkg() != nil && c.Method.Pkg().Path() == "k8s.io/apimachinery/pkg/labels"
 		})
+	}
+	// "all entries of a constant table hold": a range over a package-level table whose every
+	// continuing iteration carries entry.f(pod, node) == true and which returns true only after the
+	// table is exhausted makes every function of the table a conjunct of the true cases that ran it out
+	type tableAll struct {
+		l   *sliceLoopC
+		fns []*ssa.Function
+	}
+	var tables []tableAll
+	kf := newKeyer(fit)
+	for _, l := range sliceLoopsC(fit) {
+		var dyn ssa.CallInstruction
+		for _, ci := range callsIn(fit) {
+			cc := ci.Common()
+			if l.In[ci.Block()] && !cc.IsInvoke() && staticCallee(cc) == nil && len(cc.Args) == 2 && cc.Args[0] == ssa.Value(pod) && cc.Args[1] == ssa.Value(node) {
+				if root, _ := accessPath(cc.Value); l.isElemAddr(kf, root) {
+					dyn = ci
+				}
+			}
+		}
+		if dyn == nil {
+			continue
+		}
+		fns, okD := dDynCallees(r.Prog, dyn)
+		if !okD || len(fns) == 0 {
+			fns, okD = tableFieldFuncsC(dyn.Common().Value)
+		}
+		if !okD || len(fns) == 0 {
+			continue
+		}
+		bp, okB := backEdgePathsC(fit, kf, l.Header, l.Body, l.In, 500)
+		all := okB && len(bp) > 0
+		for _, p := range bp {
+			if !valueFactC(p.Facts, true, func(v ssa.Value) bool { return v == dyn.Value() }) {
+				all = false
+			}
+		}
+		if all {
+			tables = append(tables, tableAll{l, fns})
+			for _, f := range fns { // functions called through the table belong to the analysed scope
+				for g := range r.Prog.reachableFuncs(f) {
+					fitReach[g] = true
+				}
+			}
+		}
 	}
 	var taintFn, selFn *ssa.Function
 	nTrue := 0
@@ -1460,6 +1686,7 @@ func c01Fitness(r *Run) {
 		}
 		nTrue++
 		hasT, hasS := false, false
+		var conj []*ssa.Function
 		for _, f := range c.Facts {
 			call, ok := f.V.(*ssa.Call)
 			if !ok || !f.Pol {
@@ -1467,6 +1694,26 @@ func c01Fitness(r *Run) {
 			}
 			cal := staticCallee(&call.Call)
 			if cal == nil || !r.Prog.IsRuleSite(cal) || len(call.Call.Args) != 2 || call.Call.Args[0] != ssa.Value(pod) || call.Call.Args[1] != ssa.Value(node) {
+				continue
+			}
+			conj = append(conj, cal)
+		}
+		for _, t := range tables {
+			ranOut, inside := false, false
+			for i, b := range c.P.Blocks {
+				if b == t.l.Header && i+1 < len(c.P.Blocks) && c.P.Blocks[i+1] == t.l.Done {
+					ranOut = true
+				}
+				if b != t.l.Header && t.l.In[b] {
+					inside = true
+				}
+			}
+			if ranOut && !inside {
+				conj = append(conj, t.fns...)
+			}
+		}
+		for _, cal := range conj {
+			if len(cal.Params) != 2 {
 				continue
 			}
 			if isTaintFn(cal) {
@@ -1483,54 +1730,236 @@ func c01Fitness(r *Run) {
 		r.Check("C01.R7", "fit=true", r.Prog.Pos(fit.Pos()), shortFunc(fit), "CheckNodeFitness can return true", false, "no true case")
 	}
 	if taintFn != nil {
-		c01Taints(r, taintFn)
+		c01Taints(r, al, taintFn)
 	}
 	if selFn != nil {
 		c01Selector(r, selFn)
 	}
 }
 
-func c01Taints(r *Run, fn *ssa.Function) {
-	pod, node := fn.Params[0], fn.Params[1]
-	// every return is TolerationsTolerateTaintsWithFilter(pod.Spec.Tolerations, node.Spec.Taints, filter)
-	var filter *ssa.Function
-	for _, b := range fn.Blocks {
-		ret := returnOf(b)
-		if ret == nil {
+// c01TaintScan finds the scan of node.Spec.Taints reached from the taint check T(pod, node): the
+// function g (T itself or a repository function it reaches) and its range loop over a slice that
+// denotes <T's node>.Spec.Taints (through parameters of helpers).
+func c01TaintScan(r *Run, al *aliasC, t *ssa.Function) (*ssa.Function, *sliceLoopC) {
+	if len(t.Params) != 2 {
+		return nil, nil
+	}
+	node := t.Params[1]
+	for _, g := range sortedFuncs(r.Prog.reachableFuncs(t)) {
+		if !r.Prog.IsRuleSite(g) {
 			continue
 		}
-		pos := r.Prog.Pos(instrPos(ret))
-		good := true
-		detail := ""
-		for _, o := range origins(ret.Results[0]) {
-			c, ok := isCallTo(o, pkgSched+".TolerationsTolerateTaintsWithFilter")
-			if !ok {
-				if bv, isC := constBool(o); isC && !bv {
-					continue // returning false is always safe
-				}
-				good, detail = false, "returns "+descValueC(o)
-				continue
-			}
-			r0, p0 := accessPath(unwrap(c.Call.Args[0]))
-			r1, p1 := accessPath(unwrap(c.Call.Args[1]))
-			if r0 != ssa.Value(pod) || !pathIsC(p0, "Spec", "Tolerations") || r1 != ssa.Value(node) || !pathIsC(p1, "Spec", "Taints") {
-				good, detail = false, "arguments are "+descValueC(c.Call.Args[0])+", "+descValueC(c.Call.Args[1])
-			}
-			switch f := unwrap(c.Call.Args[2]).(type) {
-			case *ssa.Function:
-				filter = f
-			case *ssa.MakeClosure:
-				filter, _ = f.Fn.(*ssa.Function)
-			default:
-				good, detail = false, "the taint filter is not a function literal: "+descValueC(c.Call.Args[2])
+		for _, l := range sliceLoopsC(g) {
+			if ipIsC(al, l.Slice, node, "Spec", "Taints") {
+				return g, l
 			}
 		}
-		r.Check("C01.R7", "taint check result", pos, shortFunc(fn), "the taint check is TolerationsTolerateTaintsWithFilter(pod.Spec.Tolerations, node.Spec.Taints, filter)", good, detail)
 	}
-	if filter != nil {
-		c01TaintFilter(r, filter)
+	return nil, nil
+}
+
+// c01Taints: the taint check. In the function g that scans node.Spec.Taints:
+//   - an iteration moves on only if the taint is not selected (the filter function says no, or its
+//     effect is neither NoSchedule nor NoExecute) or a toleration of pod.Spec.Tolerations tolerates it;
+//   - false is returned only for a selected, untolerated taint; true only outside the scan;
+//   - the selection is exactly {NoSchedule, NoExecute}; the toleration test holds only if some
+//     toleration ToleratesTaint(taint); the scan's verdict is what the taint check returns.
+func c01Taints(r *Run, al *aliasC, t *ssa.Function) {
+	pod := t.Params[0]
+	g, loop := c01TaintScan(r, al, t)
+	if g == nil {
+		r.Undecided("C01.R7", "taint scan", r.Prog.Pos(t.Pos()), shortFunc(t), "no scan of node.Spec.Taints is reached from the taint check")
+		return
 	}
-	c01TolerateAll(r)
+	noSched, _ := r.Prog.constStr(pkgCoreV1, "TaintEffectNoSchedule")
+	noExec, _ := r.Prog.constStr(pkgCoreV1, "TaintEffectNoExecute")
+	k := newKeyer(g)
+	pos := r.Prog.Pos(instrPos(loop.Header.Instrs[len(loop.Header.Instrs)-1]))
+	// the verdict of the scan is the verdict of the taint check
+	if g != t {
+		good, detail := true, ""
+		for _, b := range t.Blocks {
+			ret := returnOf(b)
+			if ret == nil {
+				continue
+			}
+			for _, o := range origins(ret.Results[0]) {
+				if bv, isC := constBool(o); isC && !bv {
+					continue
+				}
+				c, ok := o.(*ssa.Call)
+				if !ok || staticCallee(&c.Call) != g {
+					good, detail = false, "returns "+descValueC(o)
+				}
+			}
+		}
+		r.Check("C01.R7", "taint check result", r.Prog.Pos(t.Pos()), shortFunc(t), "the taint check returns the verdict of the scan of node.Spec.Taints (or false)", good, detail)
+	}
+	// filter function (optional): a function-typed value applied to the taint
+	var filterCalls []ssa.CallInstruction
+	filterFns := map[*ssa.Function]bool{}
+	for _, ci := range callsIn(g) {
+		cc := ci.Common()
+		if !loop.In[ci.Block()] || cc.IsInvoke() || staticCallee(cc) != nil || len(cc.Args) != 1 || !loop.isElem(k, cc.Args[0]) {
+			continue
+		}
+		if _, isBuiltin := cc.Value.(*ssa.Builtin); isBuiltin {
+			continue
+		}
+		filterCalls = append(filterCalls, ci)
+		if fns, ok := dDynCallees(r.Prog, ci); ok {
+			for _, f := range fns {
+				filterFns[f] = true
+			}
+		} else {
+			r.Undecided("C01.R7", "taint filter", r.Prog.Pos(ci.Pos()), shortFunc(g), "the filter applied to the taints cannot be resolved to functions")
+		}
+	}
+	isFilterCall := func(v ssa.Value) bool {
+		for _, ci := range filterCalls {
+			if ci.Value() != nil && v == ssa.Value(ci.Value()) {
+				return true
+			}
+		}
+		return false
+	}
+	isFilterVal := func(v ssa.Value) bool {
+		for _, ci := range filterCalls {
+			if unwrap(v) == ci.Common().Value {
+				return true
+			}
+		}
+		return false
+	}
+	effect := func(v ssa.Value) bool { p, ok := loop.elemPath(k, v); return ok && pathIsC(p, "Effect") }
+	effectIs := func(fs factSet, val string, pol bool) bool { return eqFactC(fs, pol, effect, isConstStringVal(val)) }
+	selectedBy := func(fs factSet) (bool, string) {
+		switch {
+		case valueFactC(fs, true, isFilterCall):
+			return true, "filter"
+		case len(filterCalls) > 0 && nilFactC(fs, true, isFilterVal):
+			return true, "no filter"
+		case effectIs(fs, noSched, true):
+			return true, noSched
+		case effectIs(fs, noExec, true):
+			return true, noExec
+		}
+		return false, ""
+	}
+	rejectedBy := func(fs factSet) bool {
+		return valueFactC(fs, false, isFilterCall) || (effectIs(fs, noSched, false) && effectIs(fs, noExec, false))
+	}
+	// toleration test: M(<pod tolerations>, taint)
+	tolFns := map[*ssa.Function]bool{}
+	isTolCall := func(v ssa.Value) bool {
+		c, ok := v.(*ssa.Call)
+		if !ok || len(c.Call.Args) != 2 {
+			return false
+		}
+		m := repoCalleeC(&c.Call)
+		if m == nil || !loop.isElem(k, c.Call.Args[1]) || !ipIsC(al, c.Call.Args[0], pod, "Spec", "Tolerations") {
+			return false
+		}
+		tolFns[m] = true
+		return true
+	}
+	// continue paths
+	bp, okB := backEdgePathsC(g, k, loop.Header, loop.Body, loop.In, 2000)
+	r.paths += len(bp)
+	good, detail := okB && len(bp) > 0, ""
+	for _, p := range bp {
+		if !rejectedBy(p.Facts) && !valueFactC(p.Facts, true, isTolCall) {
+			good = false
+			detail = "an iteration continues with facts " + descFactsC(p.Facts)
+		}
+	}
+	r.Check("C01.R7", "taint scan continues", pos, shortFunc(g), "the scan moves to the next taint only if the taint is not selected (filter says no / effect is neither NoSchedule nor NoExecute) or a toleration tolerates it", good, detail)
+	// rejecting paths
+	inLoopReturn := func(b *ssa.BasicBlock) bool { return isReturnBlock(b) && loop.In[b] && b != loop.Header }
+	stopOut := func(b *ssa.BasicBlock) bool { return !loop.In[b] || b == loop.Header }
+	rp, okR := enumPaths(g, k, loop.Body, inLoopReturn, stopOut, 2000)
+	r.paths += len(rp)
+	goodF, detailF, nFalse := okR, "", 0
+	via := map[string]bool{}
+	for _, p := range rp {
+		ret := returnOf(p.Blocks[len(p.Blocks)-1])
+		res := p.Resolve(ret.Results[0])
+		if b, isC := constBool(res); !isC || b {
+			if !isC || b {
+				if isC && b {
+					goodF, detailF = false, "true is returned from inside the scan"
+				}
+			}
+			continue
+		}
+		nFalse++
+		sel, how := selectedBy(p.Facts)
+		via[how] = true
+		if !sel || !valueFactC(p.Facts, false, isTolCall) {
+			goodF = false
+			detailF = "false is returned for a taint on a path with facts " + descFactsC(p.Facts)
+		}
+	}
+	r.Check("C01.R7", "taint scan rejects", pos, shortFunc(g),
+		"a node is rejected for a taint only if that taint is selected (by the filter, or having effect NoSchedule/NoExecute) and no toleration tolerates it — ignored taints never make a node ineligible", goodF && nFalse > 0, detailF)
+	// true only outside the scan
+	cases, _, okc := boolCasesC(g, 0, 2000)
+	goodT, detailT := okc, ""
+	for _, c := range cases {
+		if !c.Result {
+			continue
+		}
+		for _, b := range c.P.Blocks {
+			if b != loop.Header && loop.In[b] {
+				goodT = false
+				detailT = "true is returned from inside the scan at " + r.Prog.Pos(instrPos(c.Ret))
+			}
+		}
+	}
+	r.Check("C01.R7", "taint scan result", r.Prog.Pos(g.Pos()), shortFunc(g), "true is returned only before the scan (no taints) or after it is exhausted", goodT, detailT)
+	// the filter, when there is one: nil-guarded and selecting exactly the two effects
+	if len(filterCalls) > 0 {
+		ffT := computeFacts(g)
+		goodN, detailN := true, ""
+		for _, ci := range filterCalls {
+			fv := ci.Common().Value
+			if _, isParam := unwrap(fv).(*ssa.Parameter); !isParam {
+				continue // only an optional (parameter) filter can be nil
+			}
+			if !nilFactC(ffT.At(ci.Block()), false, func(v ssa.Value) bool { return unwrap(v) == fv }) {
+				goodN = false
+				detailN = "the filter is called at " + r.Prog.Pos(ci.Pos()) + " without the fact filter != nil"
+			}
+		}
+		r.Check("C01.R7", "taint filter nil-guarded", r.Prog.Pos(g.Pos()), shortFunc(g), "the optional filter is called only where it is known to be non-nil", goodN, detailN)
+		for _, f := range sortedFuncs(filterFns) {
+			c01TaintFilter(r, f)
+		}
+	} else {
+		// inline selection: both effects are seen as selecting, nothing else
+		r.Check("C01.R7", "taint effect set", pos, shortFunc(g), "both NoSchedule and NoExecute taints are selected, and only those", via[noSched] && via[noExec] && len(via) == 2, "selected by: "+strings.Join(sortedKeysC(via), ","))
+	}
+	// the toleration test
+	if len(tolFns) == 0 {
+		r.Check("C01.R7", "toleration match", pos, shortFunc(g), "selected taints are tested against pod.Spec.Tolerations", false, "no call M(pod.Spec.Tolerations, taint) of a repository function found in the scan")
+	}
+	for _, m := range sortedFuncs(tolFns) {
+		alts := r.Prog.funcTrueAlternatives(m, 0)
+		goodM, detailM := len(alts) > 0, ""
+		for _, alt := range alts {
+			if !valueFactC(alt, true, func(v ssa.Value) bool {
+				call, ok := v.(*ssa.Call)
+				if !ok || calleeName(&call.Call) != "("+pkgCoreV1+".Toleration).ToleratesTaint" || len(call.Call.Args) != 2 {
+					return false
+				}
+				return denotesParamC(call.Call.Args[1], m.Params[1])
+			}) {
+				goodM = false
+				detailM = "true with facts " + descFactsC(alt)
+			}
+		}
+		r.Check("C01.R7", "toleration match", r.Prog.Pos(m.Pos()), shortFunc(m), "a taint counts as tolerated only if some toleration ToleratesTaint(taint)", goodM, detailM)
+	}
 }
 
 // c01TaintFilter: the filter selects exactly the effects NoSchedule and NoExecute.
@@ -1567,134 +1996,6 @@ func c01TaintFilter(r *Run, filter *ssa.Function) {
 		}
 	}
 	r.Check("C01.R7", "taint filter effect set", r.Prog.Pos(filter.Pos()), shortFunc(filter), "both NoSchedule and NoExecute taints are selected", selected[noSched] && selected[noExec], "selected: "+strings.Join(sortedKeysC(selected), ","))
-}
-
-// c01TolerateAll: TolerationsTolerateTaintsWithFilter continues past a taint only if the filter
-// rejects it or it is tolerated, and returns true only outside the scan.
-func c01TolerateAll(r *Run) {
-	fn := r.Prog.Func(pkgSched, "TolerationsTolerateTaintsWithFilter")
-	if fn == nil || len(fn.Params) != 3 {
-		r.Fatal("anchor %s.TolerationsTolerateTaintsWithFilter not found", pkgSched)
-		return
-	}
-	tolerations, taints, filter := fn.Params[0], fn.Params[1], fn.Params[2]
-	var loop *sliceLoopC
-	for _, l := range sliceLoopsC(fn) {
-		if l.Slice == ssa.Value(taints) {
-			loop = l
-		}
-	}
-	if loop == nil {
-		r.Undecided("C01.R7", "taint scan", r.Prog.Pos(fn.Pos()), shortFunc(fn), "no range loop over the taints")
-		return
-	}
-	k := newKeyer(fn)
-	paths, ok := backEdgePathsC(fn, k, loop.Header, loop.Body, loop.In, 500)
-	r.paths += len(paths)
-	good := ok && len(paths) > 0
-	detail := ""
-	for _, p := range paths {
-		rejected := valueFactC(p.Facts, false, func(v ssa.Value) bool {
-			c, ok := v.(*ssa.Call)
-			return ok && c.Call.Value == ssa.Value(filter) && len(c.Call.Args) == 1 && loop.isElem(k, c.Call.Args[0])
-		})
-		tolerated := valueFactC(p.Facts, true, func(v ssa.Value) bool {
-			c, ok := isCallTo(v, pkgSched+".TolerationsTolerateTaint")
-			return ok && c.Call.Args[0] == ssa.Value(tolerations) && loop.isElem(k, c.Call.Args[1])
-		})
-		if !rejected && !tolerated {
-			good = false
-			detail = "an iteration continues with facts " + descFactsC(p.Facts)
-		}
-	}
-	r.Check("C01.R7", "taint scan continues", r.Prog.Pos(instrPos(loop.Header.Instrs[len(loop.Header.Instrs)-1])), shortFunc(fn), "the scan moves to the next taint only if the filter rejects the taint or a toleration tolerates it", good, detail)
-	// converse (eligibility is exact): the scan gives up (returns false) only for a taint that the
-	// filter selected — or with no filter at all — and that no toleration tolerates; the filter is
-	// called only when it is not nil
-	inLoopReturn := func(b *ssa.BasicBlock) bool { return isReturnBlock(b) && loop.In[b] && b != loop.Header }
-	stopOut := func(b *ssa.BasicBlock) bool { return !loop.In[b] || b == loop.Header }
-	rpaths, okr := enumPaths(fn, k, loop.Body, inLoopReturn, stopOut, 500)
-	r.paths += len(rpaths)
-	goodF, detailF, nFalse := okr, "", 0
-	isFilterCall := func(v ssa.Value) bool {
-		c, ok := v.(*ssa.Call)
-		return ok && c.Call.Value == ssa.Value(filter) && len(c.Call.Args) == 1 && loop.isElem(k, c.Call.Args[0])
-	}
-	isFilter := func(v ssa.Value) bool { return unwrap(v) == ssa.Value(filter) }
-	for _, p := range rpaths {
-		ret := returnOf(p.Blocks[len(p.Blocks)-1])
-		res := p.Resolve(ret.Results[0])
-		if b, isC := constBool(res); !isC || b {
-			continue
-		}
-		nFalse++
-		selected := valueFactC(p.Facts, true, isFilterCall) || nilFactC(p.Facts, true, isFilter)
-		untolerated := valueFactC(p.Facts, false, func(v ssa.Value) bool {
-			c, ok := isCallTo(v, pkgSched+".TolerationsTolerateTaint")
-			return ok && c.Call.Args[0] == ssa.Value(tolerations) && loop.isElem(k, c.Call.Args[1])
-		})
-		if !selected || !untolerated {
-			goodF = false
-			detailF = "false is returned for a taint on a path with facts " + descFactsC(p.Facts)
-		}
-	}
-	r.Check("C01.R7", "taint scan rejects", r.Prog.Pos(instrPos(loop.Header.Instrs[len(loop.Header.Instrs)-1])), shortFunc(fn),
-		"a node is rejected for a taint only if the filter selected that taint (or there is no filter) and no toleration tolerates it — taints the filter ignores never make a node ineligible", goodF && nFalse > 0, detailF)
-	// the filter is invoked only under filter != nil
-	ffT := computeFacts(fn)
-	goodN, detailN := true, ""
-	for _, ci := range callsIn(fn) {
-		if ci.Common().Value == ssa.Value(filter) && !nilFactC(ffT.At(ci.Block()), false, isFilter) {
-			goodN = false
-			detailN = "the filter is called at " + r.Prog.Pos(ci.Pos()) + " without the fact filter != nil"
-		}
-	}
-	r.Check("C01.R7", "taint filter nil-guarded", r.Prog.Pos(fn.Pos()), shortFunc(fn), "the optional filter is called only where it is known to be non-nil", goodN, detailN)
-	cases, _, ok := boolCasesC(fn, 0, 500)
-	good = ok
-	detail = ""
-	for _, c := range cases {
-		if !c.Result {
-			continue
-		}
-		for _, b := range c.P.Blocks {
-			if b != loop.Header && loop.In[b] {
-				good = false
-				detail = "true is returned from inside the scan at " + r.Prog.Pos(instrPos(c.Ret))
-			}
-		}
-	}
-	r.Check("C01.R7", "taint scan result", r.Prog.Pos(fn.Pos()), shortFunc(fn), "true is returned only before the scan (no taints) or after it is exhausted", good, detail)
-
-	// TolerationsTolerateTaint: true only when some toleration tolerates the taint
-	tt := r.Prog.Func(pkgSched, "TolerationsTolerateTaint")
-	if tt == nil || len(tt.Params) != 2 {
-		r.Fatal("anchor %s.TolerationsTolerateTaint not found", pkgSched)
-		return
-	}
-	cases, _, ok = boolCasesC(tt, 0, 500)
-	good = ok
-	detail = ""
-	nTrue := 0
-	for _, c := range cases {
-		if !c.Result {
-			continue
-		}
-		nTrue++
-		if !valueFactC(c.Facts, true, func(v ssa.Value) bool {
-			call, ok := v.(*ssa.Call)
-			if !ok || calleeName(&call.Call) != "("+pkgCoreV1+".Toleration).ToleratesTaint" || len(call.Call.Args) != 2 {
-				return false
-			}
-			root, _ := accessPath(call.Call.Args[0])
-			ia, isIA := root.(*ssa.IndexAddr)
-			return isIA && ia.X == ssa.Value(tt.Params[0]) && call.Call.Args[1] == ssa.Value(tt.Params[1])
-		}) {
-			good = false
-			detail = "true returned with facts " + descFactsC(c.Facts)
-		}
-	}
-	r.Check("C01.R7", "toleration match", r.Prog.Pos(tt.Pos()), shortFunc(tt), "a taint counts as tolerated only if tolerations[i].ToleratesTaint(taint) holds for some i", good && nTrue > 0, detail)
 }
 
 // c01Selector: the selector/affinity check.
